@@ -139,11 +139,18 @@ Record pair_wf (A B : hostg) : Prop := {
   pw_ids : forall n, In n (node_ids A) <-> In n (node_ids B);
   pw_el : forall n x y, label A n = Some x -> label B n = Some y -> a_el x = a_el y }.
 
+(** a template atom fits the atom (x in A, y in B): same elements and charges, it demands no more hydrogens than x has
+    and changes the hydrogen count by what distinguishes y from x (in implicit mode the counts are simply equal; a rule
+    prepared by _strip_explicit_h carries only the hydrogens that take part) *)
+Definition node_fit (a : inode) (x y : nattr) : Prop :=
+  a_el (iG a) = a_el x /\ a_el (iH a) = a_el y /\ a_ch (iG a) = a_ch x /\ a_ch (iH a) = a_ch y /\
+  a_hc (iG a) <= a_hc x /\ a_hc (iG a) - a_hc (iH a) = a_hc x - a_hc y.
+
 (** [tpl] fits the pair (A, B): its tuples and bond orders are those of A and B *)
 Record fits (A B : hostg) (tpl : its) : Prop := {
   f_wf : wf_rcb tpl = true;
   f_nodes : forall n a, In (n, a) (gnodes tpl) ->
-              exists x y, label A n = Some x /\ label B n = Some y /\ sel (iG a) = sel x /\ sel (iH a) = sel y;
+              exists x y, label A n = Some x /\ label B n = Some y /\ node_fit a x y;
   f_edges : forall u v x, In (u, v, x) (gedges tpl) ->
               In u (node_ids tpl) /\ In v (node_ids tpl) /\ eG x = order_in A u v /\ eH x = order_in B u v }.
 (** [tpl] describes the pair (A, B): it fits and contains every bond and every atom on which A and B differ *)
@@ -171,8 +178,8 @@ Section Match.
     - unfold id_map, node_ids. rewrite !map_length. apply Nat.eqb_refl.
     - apply forallb_forall. intros [n a] I. unfold rc_node_okb. simpl.
       assert (In n (node_ids tpl)) by (unfold node_ids; change n with (fst (n, a)); apply in_map; exact I).
-      rewrite (mget_id _ n H). destruct (f_nodes _ _ _ F n a I) as (x & y & Ex & Ey & Sx & Sy). rewrite Ex.
-      unfold sel in Sx. inversion Sx. rewrite N.eqb_refl, Z.eqb_refl. simpl. apply Z.leb_le. lia.
+      rewrite (mget_id _ n H). destruct (f_nodes _ _ _ F n a I) as (x & y & Ex & Ey & E1 & _ & E3 & _ & E5 & _). rewrite Ex.
+      rewrite E1, E3, N.eqb_refl, Z.eqb_refl. simpl. apply Z.leb_le. exact E5.
     - apply forallb_forall. intros [[u v] x] I. unfold rc_edge_okb.
       destruct (f_edges _ _ _ F u v x I) as (Iu & Iv & Eg & Eh). rewrite (mget_id _ u Iu), (mget_id _ v Iv).
       destruct (0 <? eG x) eqn:E; [|reflexivity]. apply Z.ltb_lt in E.
@@ -189,8 +196,8 @@ Section Match.
       change (gnodes (dec_side iG eG tpl)) with (map (fun p : N * inode => (fst p, dec_node (iG (snd p)))) (gnodes tpl)) in I.
       apply in_map_iff in I. destruct I as ([k pn] & E & I). simpl in E. inversion E; subst.
       assert (In n (node_ids tpl)) by (unfold node_ids; change n with (fst (n, pn)); apply in_map; exact I).
-      rewrite (mget_id _ n H). destruct (f_nodes _ _ _ F n pn I) as (x & y & Ex & Ey & Sx & Sy). rewrite Ex.
-      unfold sel in Sx. inversion Sx. simpl. rewrite N.eqb_refl, Z.eqb_refl. simpl. apply Z.leb_le. lia.
+      rewrite (mget_id _ n H). destruct (f_nodes _ _ _ F n pn I) as (x & y & Ex & Ey & E1 & _ & E3 & _ & E5 & _). rewrite Ex.
+      simpl. rewrite E1, E3, N.eqb_refl, Z.eqb_refl. simpl. apply Z.leb_le. exact E5.
     - apply forallb_forall. intros [[u v] o] I. unfold edge_okb.
       unfold dec_side in I; simpl in I. apply in_flat_map in I. destruct I as ([[p q] x] & I & I').
       destruct (0 <? eG x) eqn:E; [|destruct I']. destruct I' as [I'|[]]. inversion I'; subst.
@@ -278,11 +285,9 @@ Section Regen.
         assert (Ip : In (n, pn) (gnodes tpl)) by (apply assoc_in; exact Ep).
         c03 (glued_node A tpl m T) as GN. destruct (GN n n pn (mget_id _ n I) Ip) as (hn & Eh & ET).
         rewrite ET. simpl. rewrite Ex in Eh. inversion Eh; subst hn.
-        destruct (d_nodes _ _ _ D n pn Ip) as (x' & y' & Ex' & Ey' & Sx & Sy).
+        destruct (d_nodes _ _ _ D n pn Ip) as (x' & y' & Ex' & Ey' & _ & _ & _ & E4 & _ & E6).
         rewrite Ex in Ex'. rewrite Ey in Ey'. inversion Ex'; inversion Ey'; subst x' y'.
-        unfold sel in *. inversion Sx. inversion Sy. simpl.
-        pose proof (pw_el _ _ PW n x y Ex Ey) as Eel.
-        assert (E1 : a_el (iG pn) = a_el (iH pn)) by congruence. rewrite E1. f_equal. f_equal. f_equal. lia.
+        unfold sel; simpl. rewrite (pw_el _ _ PW n x y Ex Ey), E4. f_equal. f_equal. f_equal. lia.
       + c03 (unglued_node A tpl m T) as UN. rewrite (UN n) by (unfold m; rewrite id_map_snd; exact NI).
         rewrite Ex. simpl. f_equal.
         destruct (sel_dec x y) as [E|NE]; [exact E|]. exfalso. exact (NI (d_cover_n _ _ _ D n x y Ex Ey NE)).
